@@ -860,10 +860,10 @@ fn rand_resp_body(r: &mut Rng, expect: &str) -> Vec<u8> {
 }
 
 fn rand_status(r: &mut Rng) -> u16 {
-    match r.below(10) {
-        0..=4 => *r.pick(&VALID_STATUS),
-        5 | 6 => *r.pick(&boundary_statuses()),
-        7 => r.below(1000) as u16,
+    match r.below(100) {
+        0..=74 => *r.pick(&VALID_STATUS),
+        75..=86 => *r.pick(&boundary_statuses()),
+        87..=92 => r.below(1000) as u16,
         _ => r.next() as u16,
     }
 }
